@@ -9,11 +9,10 @@ import (
 	"math/big"
 	"strconv"
 	"strings"
+	"unicode"
 	"unicode/utf8"
 
 	"github.com/ohler55/slip"
-	"golang.org/x/text/cases"
-	"golang.org/x/text/language"
 )
 
 // - 0123456789abcdef0123456789abcdef
@@ -486,21 +485,32 @@ func (c *control) dirCase(colon, at bool, params []any) {
 	case colon && at:
 		c.out = append(c.out, bytes.ToUpper(c2.out)...)
 	case colon:
-		c2.out = bytes.ToLower(c2.out)
-		caser := cases.Title(language.English)
-		c.out = append(c.out, caser.Bytes(c2.out)...)
+		c.out = append(c.out, capitalize(c2.out, false)...)
 	case at:
-		c2.out = bytes.ToLower(c2.out)
-		caser := cases.Title(language.English)
-		if i := bytes.Index(c2.out, []byte{' '}); 0 < i {
-			c.out = append(c.out, caser.Bytes(c2.out[:i])...)
-			c.out = append(c.out, c2.out[i:]...)
-		} else {
-			c.out = append(c.out, caser.Bytes(c2.out)...)
-		}
+		c.out = append(c.out, capitalize(c2.out, true)...)
 	default:
 		c.out = append(c.out, bytes.ToLower(c2.out)...)
 	}
+}
+
+// capitalize converts buf to lowercase and then the first character of each
+// word to uppercase as string-capitalize does, a word being a run of letters
+// and digits. If firstOnly is true only the first word is capitalized.
+func capitalize(buf []byte, firstOnly bool) []byte {
+	rs := []rune(string(bytes.ToLower(buf)))
+	var inWord, done bool
+	for i, r := range rs {
+		if unicode.IsLetter(r) || unicode.IsDigit(r) {
+			if !inWord && !done {
+				rs[i] = unicode.ToUpper(r)
+				done = firstOnly
+			}
+			inWord = true
+		} else {
+			inWord = false
+		}
+	}
+	return []byte(string(rs))
 }
 
 func (c *control) dirMove(colon, at bool, params []any) {
